@@ -43,10 +43,10 @@ template <class PT> void icp_case(vf::Ctx& c, const char* tname, double tx, doub
 }
 
 // ---- RANSAC with gross outliers -------------------------------------------------------------------------------------
-template <class PT> void ransac_case(vf::Ctx& c, const char* tname, int n, int outlierPct, int placement, double dispSigma, int motion, bool planeMode, int variant = 0, bool coherent = false) {
+template <class PT> void ransac_case(vf::Ctx& c, const char* tname, int n, int outlierPct, int placement, double dispSigma, int motion, bool planeMode, int variant = 0, bool coherent = false, double sigma = 0.05) {
   using S = typename PT::Scalar; constexpr int DIM = PointTraits<PT>::DIM;
   using H = Eigen::Matrix<S, DIM + 1, DIM + 1>;
-  const double sigma = 0.05;
+  // sigma is the configured noise level handed to Ransac; the data scale with it (inliers 0.3 sigma, outliers dispSigma x sigma)
   // motions up to 0.5 m / 0.2 rad
   const double motions[6][3] = {{0, 0, 0}, {0.5, -0.3, 0.2}, {-0.2, 0.5, -0.2}, {0.1, 0.1, 0.05}, {-0.5, -0.5, 0.1}, {0.3, 0, -0.12}};
   double tx = motions[motion][0], ty = motions[motion][1], th = planeMode ? motions[motion][2] * 5e-3 : motions[motion][2];
@@ -86,13 +86,13 @@ template <class PT> void ransac_case(vf::Ctx& c, const char* tname, int n, int o
   c.eval(); if (nOut) c.nontrivial();
   c.obs((uint64_t)ok1); c.obs(r1); for (int i = 0; i < (DIM + 1) * (DIM + 1); ++i) c.obs((double)h1(i / (DIM + 1), i % (DIM + 1)));
   c.note_max(std::string("ransac_frobenius_err_") + tname, (double)e1); c.note_max(std::string("ransac_outlier_influence_") + tname, (double)e12);
-  std::string params = vf::JO().str("type", tname).str("mode", planeMode ? "point-to-plane" : "closed-form").i("set_variant", variant).b("coherent_outliers", coherent).i("pairs", n).i("outlier_percent", outlierPct).str("outlier_placement", placement == 0 ? "first" : placement == 1 ? "last" : "interleaved").num("outlier_displacement_sigma", dispSigma).num("tx", tx).num("ty", ty).num("theta", th).done();
+  std::string params = vf::JO().str("type", tname).str("mode", planeMode ? "point-to-plane" : "closed-form").i("set_variant", variant).b("coherent_outliers", coherent).i("pairs", n).i("outlier_percent", outlierPct).str("outlier_placement", placement == 0 ? "first" : placement == 1 ? "last" : "interleaved").num("outlier_displacement_sigma", dispSigma).num("sigma", sigma).num("tx", tx).num("ty", ty).num("theta", th).done();
   if (!ok1 || !(e1 <= 0.015L) || !(r1 < sigma) || !(e12 <= 0.015L))
     c.violation("Ransac.estimateModel.rigidTransformation", params, vf::JO().b("estimated", ok1).num("frobenius_err_vs_truth", e1).num("rmse", r1).num("sigma", sigma).num("difference_vs_outlier_free_run", e12).b("outlier_free_estimated", ok2).done());
   if (c.want_sample()) c.sample(params);
 }
 
-struct Case { int kind; int type; double a, b, cc; int n, pct, place, motion; double disp; bool plane; int variant = 0; bool coherent = false; };
+struct Case { int kind; int type; double a, b, cc; int n, pct, place, motion; double disp; bool plane; int variant = 0; bool coherent = false; double sigma = 0.05; };
 std::vector<Case> g_cases[2];
 const char* kT2[] = {"Vector2d", "Homogeneous2d", "Vector2f", "Homogeneous2f"};
 const char* kT3[] = {"Vector3d", "Homogeneous3d", "Vector3f", "Homogeneous3f"};
@@ -112,6 +112,12 @@ const std::vector<Case>& cases(bool th) {
     v.push_back({1, t, 0, 0, 0, n, pct, place, m, disp, false});
     if (m < 3 && (th || n == 100)) v.push_back({1, t, 0, 0, 0, n, pct, place, m, disp, true});
   }
+  // the configured noise level is a dimension of its own: the inlier gate (3 sigma) and the acceptance test (rmse < sigma) are the only places
+  // where it enters, and a gate in the wrong unit coincides with the right one at a single sigma
+  for (double sg : {0.01, 0.02, 0.1, 0.2}) for (int t = 0; t < 8; ++t) for (int pct : {10, 20, 30}) for (int place = 0; place < 3; ++place) for (double disp : {10.5, 13.0, 50.0}) for (int m = 0; m < 6; ++m) {
+    if (!th && ((t % 4) >= 2 || place == 1) && (m % 2)) continue;
+    Case k{1, t, 0, 0, 0, 100, pct, place, m, disp, false}; k.sigma = sg; v.push_back(k);
+  }
   // coherent outliers (one common displacement: a second, smaller consensus) over a lattice of data sets
   for (int t : {0, 4}) for (int n : {100, 163, 232, 355, 390}) for (int pct : {20, 30}) for (int var = 0; var < (th ? 120 : 40); ++var) {
     Case k{1, t, 0, 0, 0, n, pct, 2, var % 6, 15.0, false}; k.variant = var; k.coherent = true; v.push_back(k);
@@ -129,10 +135,10 @@ void vf_run(uint64_t idx, const std::string& tier, vf::Ctx& c) {
     switch (k.type) { case 0: icp_case<Eigen::Vector2d>(c, kT2[0], k.a, k.b, k.cc); break; case 1: icp_case<HomogeneousCoordinates2d>(c, kT2[1], k.a, k.b, k.cc); break; case 2: icp_case<Eigen::Vector2f>(c, kT2[2], k.a, k.b, k.cc); break; default: icp_case<HomogeneousCoordinates2f>(c, kT2[3], k.a, k.b, k.cc); }
   } else {
     switch (k.type) {
-      case 0: ransac_case<Eigen::Vector2d>(c, kT2[0], k.n, k.pct, k.place, k.disp, k.motion, k.plane, k.variant, k.coherent); break; case 1: ransac_case<HomogeneousCoordinates2d>(c, kT2[1], k.n, k.pct, k.place, k.disp, k.motion, k.plane, k.variant, k.coherent); break;
-      case 2: ransac_case<Eigen::Vector2f>(c, kT2[2], k.n, k.pct, k.place, k.disp, k.motion, k.plane, k.variant, k.coherent); break; case 3: ransac_case<HomogeneousCoordinates2f>(c, kT2[3], k.n, k.pct, k.place, k.disp, k.motion, k.plane, k.variant, k.coherent); break;
-      case 4: ransac_case<Eigen::Vector3d>(c, kT3[0], k.n, k.pct, k.place, k.disp, k.motion, k.plane, k.variant, k.coherent); break; case 5: ransac_case<HomogeneousCoordinates3d>(c, kT3[1], k.n, k.pct, k.place, k.disp, k.motion, k.plane, k.variant, k.coherent); break;
-      case 6: ransac_case<Eigen::Vector3f>(c, kT3[2], k.n, k.pct, k.place, k.disp, k.motion, k.plane, k.variant, k.coherent); break; default: ransac_case<HomogeneousCoordinates3f>(c, kT3[3], k.n, k.pct, k.place, k.disp, k.motion, k.plane, k.variant, k.coherent);
+      case 0: ransac_case<Eigen::Vector2d>(c, kT2[0], k.n, k.pct, k.place, k.disp, k.motion, k.plane, k.variant, k.coherent, k.sigma); break; case 1: ransac_case<HomogeneousCoordinates2d>(c, kT2[1], k.n, k.pct, k.place, k.disp, k.motion, k.plane, k.variant, k.coherent, k.sigma); break;
+      case 2: ransac_case<Eigen::Vector2f>(c, kT2[2], k.n, k.pct, k.place, k.disp, k.motion, k.plane, k.variant, k.coherent, k.sigma); break; case 3: ransac_case<HomogeneousCoordinates2f>(c, kT2[3], k.n, k.pct, k.place, k.disp, k.motion, k.plane, k.variant, k.coherent, k.sigma); break;
+      case 4: ransac_case<Eigen::Vector3d>(c, kT3[0], k.n, k.pct, k.place, k.disp, k.motion, k.plane, k.variant, k.coherent, k.sigma); break; case 5: ransac_case<HomogeneousCoordinates3d>(c, kT3[1], k.n, k.pct, k.place, k.disp, k.motion, k.plane, k.variant, k.coherent, k.sigma); break;
+      case 6: ransac_case<Eigen::Vector3f>(c, kT3[2], k.n, k.pct, k.place, k.disp, k.motion, k.plane, k.variant, k.coherent, k.sigma); break; default: ransac_case<HomogeneousCoordinates3f>(c, kT3[3], k.n, k.pct, k.place, k.disp, k.motion, k.plane, k.variant, k.coherent, k.sigma);
     }
   }
 }
@@ -143,7 +149,7 @@ std::string vf_describe(const std::string& tier) {
   bool th = tier == "thorough"; vf::JO o;
   o.str("icp", th ? "test/data/scan2d.txt (702 points) x (tx,ty) on a 41x41 lattice over [-0.2,0.2]^2 x theta on 21 values over [-0.05,0.05] x {Vector2d, Homogeneous2d, Vector2f, Homogeneous2f}; envelope corners included; fresh ICP object, identity guess, sigma 0.2"
                   : "test/data/scan2d.txt (702 points) x (tx,ty) on a 21x21 lattice over [-0.2,0.2]^2 x theta in {-0.05,-0.025,0,0.025,0.05} x {Vector2d, Homogeneous2d, Vector2f, Homogeneous2f}; envelope corners included; fresh ICP object, identity guess, sigma 0.2");
-  o.str("ransac", "Halton-pattern sets of {40,100,400} pairs over 20 m, 2D and 3D, all eight point types, inlier perturbation 0.3 sigma (sigma = 0.05), outliers {0,10,20,30}% placed first / last / interleaved and displaced 10.5 sigma or 50 sigma, six motions up to 0.5 m / 0.2 rad in the closed-form mode; point-to-plane mode for rotations up to 1e-3 rad; plus coherent outliers (all displaced by one common 15 sigma offset, 20/30%) over 40 (thorough 120) data-set variants; on every other data set the target and its normals are stored in another order (source index != target index) and the records carry the squared matching distance x {100,163,232,355,390} pairs, Vector2d and Vector3d");
+  o.str("ransac", "Halton-pattern sets of {40,100,400} pairs over 20 m, 2D and 3D, all eight point types, inlier perturbation 0.3 sigma (sigma = 0.05; 100-pair sets also with sigma in {0.01,0.02,0.1,0.2} and outliers at 10.5/13/50 sigma), outliers {0,10,20,30}% placed first / last / interleaved and displaced 10.5 sigma or 50 sigma, six motions up to 0.5 m / 0.2 rad in the closed-form mode; point-to-plane mode for rotations up to 1e-3 rad; plus coherent outliers (all displaced by one common 15 sigma offset, 20/30%) over 40 (thorough 120) data-set variants; on every other data set the target and its normals are stored in another order (source index != target index) and the records carry the squared matching distance x {100,163,232,355,390} pairs, Vector2d and Vector3d");
   o.str("oracle", "find / estimateModel true; Frobenius norm of (estimate - truth) <= 0.015; reported consensus RMSE < sigma; estimate with outliers within 0.015 of the estimate on the same set without them");
   return o.done();
 }
